@@ -45,8 +45,8 @@ def dump(typ, val, tb, include_local_traceback, include_local_version):
               traceback text)``. This tuple can be safely passed to
               :func:`brine.dump <rpyc.core.brine.dump>`
     """
-    if typ is StopIteration:
-        return consts.EXC_STOP_ITERATION  # optimization
+    if typ is StopIteration and not getattr(val, "args", None):
+        return consts.EXC_STOP_ITERATION  # optimization (a StopIteration carrying a value goes the general way)
     if type(typ) is str:
         return typ
 
